@@ -580,10 +580,10 @@ def run(ck: common.Check):
     # free text that output layers interpret (console markup, emoji codes, ANSI, format directives, long lines):
     # every such string in every free-text field at once, plus random mixtures; all of them go through `geff info`
     tricky = [mc.gen_doc_tricky(ck.rng, everywhere=t) for t in mc.TRICKY]
-    tricky += [mc.gen_doc_tricky(ck.rng) for _ in range(60 if ck.quick else 1500)]
+    tricky += [mc.gen_doc_tricky(ck.rng) for _ in range(60 if ck.quick else 800)]
     n_plain = len(docs)
     docs += tricky
-    sub_every = max(1, len(tricky) // (2 if ck.quick else 30))
+    sub_every = max(1, len(tricky) // (2 if ck.quick else 10))
     sub_envs = ["tty-like", "dumb"] if ck.quick else ["tty-like", "dumb", "narrow"]
     clearable = ["axes", "sphere", "ellipsoid", "track_node_props", "related_objects", "display_hints"]
 
